@@ -187,6 +187,52 @@ def exec_generate_pos(case):
 # ---------------------------------------------------------------- pyramids vs RefPyramid
 
 
+_GEO = None  # (lon0, width): the filter under test looks at the tile's sky position, not at its address
+
+
+def _geo_accepts(vec_sum, geo):
+    import math
+
+    lon = math.atan2(vec_sum[1], vec_sum[0]) % (2 * math.pi)
+    d = (lon - geo[0]) % (2 * math.pi)
+    return d <= geo[1], min(d, abs(d - geo[1]), 2 * math.pi - d)
+
+
+def tile_filter(F):
+    if _GEO is None:
+        return lambda t: F(tuple(t.pos))
+    geo = _GEO
+
+    def f(t):
+        import math
+
+        v = [0.0, 0.0, 0.0]
+        for lon, lat in t.corners:
+            v[0] += math.cos(lat) * math.cos(lon)
+            v[1] += math.cos(lat) * math.sin(lon)
+            v[2] += math.sin(lat)
+        return _geo_accepts(v, geo)[0]
+
+    return f
+
+
+def geo_filter_as_positions(geo, depth, coordsys):
+    """the positions of levels 1..depth whose corner centroid (from the reference model of the projection, in the given coordinate
+    system) has its longitude in [lon0, lon0 + width]; and the smallest distance of any centroid longitude from the interval's ends"""
+    from .. import reftoast as rt
+
+    acc, margin = [], 10.0
+    for n in range(1, depth + 1):
+        for y in range(2**n):
+            for x in range(2**n):
+                c, _inc = rt.tile_corners(n, x, y, planetary=(coordsys == "planetary"))
+                ok, m = _geo_accepts(c.sum(axis=0), geo)
+                margin = min(margin, m)
+                if ok:
+                    acc.append([n, x, y])
+    return {"default": False, "flip": acc}, margin
+
+
 def make_pyramid(kind, depth, fspec, apex, coordsys="astronomical"):
     py = _P()
     from toasty import toast
@@ -198,7 +244,7 @@ def make_pyramid(kind, depth, fspec, apex, coordsys="astronomical"):
         p = py.Pyramid.new_toast(depth, coordsys=cs)
     else:
         F = gens.filter_fn(fspec)
-        p = py.Pyramid.new_toast_filtered(depth, lambda t: F(tuple(t.pos)), coordsys=cs)
+        p = py.Pyramid.new_toast_filtered(depth, tile_filter(F), coordsys=cs)
     if _PRE_REJECT is not None:
         # a request for an apex below the pyramid's depth is documented as illegal; once it has been refused the pyramid
         # must be what it was before
@@ -302,14 +348,14 @@ def compare_pyramid(kind, depth, fspec, apex, coordsys="astronomical", routes=Tr
                 tiles = list(toast.generate_tiles(depth, bottom_only=False, coordsys=cs))
                 bottom = list(toast.generate_tiles(depth, bottom_only=True, coordsys=cs))
             else:
-                tiles = list(toast.generate_tiles_filtered(depth, lambda t: F(tuple(t.pos)), bottom_only=False, coordsys=cs))
-                bottom = list(toast.generate_tiles_filtered(depth, lambda t: F(tuple(t.pos)), bottom_only=True, coordsys=cs))
+                tiles = list(toast.generate_tiles_filtered(depth, tile_filter(F), bottom_only=False, coordsys=cs))
+                bottom = list(toast.generate_tiles_filtered(depth, tile_filter(F), bottom_only=True, coordsys=cs))
             if depth >= 1:
                 check_postfix_sequence([tuple(t.pos) for t in tiles], exp, f"generate_tiles(_filtered) of {desc}", depth)
                 bexp = set(p for p in exp if p[0] == depth)
                 check_postfix_sequence([tuple(t.pos) for t in bottom], bexp, f"generate_tiles(_filtered, bottom_only) of {desc}", depth)
                 if kind == "filtered":
-                    n1 = toast.count_tiles_matching_filter(depth, lambda t: F(tuple(t.pos)), bottom_only=True, coordsys=cs)
+                    n1 = toast.count_tiles_matching_filter(depth, tile_filter(F), bottom_only=True, coordsys=cs)
                     if n1 != len(bexp):
                         raise Violation("count-filter", f"count_tiles_matching_filter = {n1}, reference {len(bexp)} for {desc}")
     return ref, vis_pos, walked
@@ -352,9 +398,22 @@ def classes_of(kind, depth, fspec, apex, ref):
 
 
 def exec_pyramid(case):
-    global _PRE_REJECT
+    global _PRE_REJECT, _GEO
     kind, depth, fspec, apex = case["kind"], case["depth"], case.get("filter"), case.get("apex")
     cs = case.get("coordsys", "astronomical")
+    if case.get("geo"):
+        # a filter that looks at where the tile is on the sky (as the image-footprint filters do): what it accepts depends on the
+        # pyramid's coordinate system; the reference set comes from the reference model of the projection
+        fspec, margin = geo_filter_as_positions(case["geo"], depth, cs)
+        if margin < 1e-9:
+            return Outcome(classes=["geo-filter", "threshold-on-a-tile-centre"], nontrivial=False)
+        _GEO = tuple(case["geo"])
+        try:
+            out = exec_pyramid({k: v for k, v in case.items() if k != "geo"} | {"filter": fspec, "_geo_active": True})
+        finally:
+            _GEO = None
+        out.classes += ["sky-position-filter", "sky-position-filter/" + cs]
+        return out
     _PRE_REJECT = case.get("rejected_apex")
     try:
         with toasty_call("pyramid", "pyramid use" + (f" after a refused subpyramid({_PRE_REJECT})" if _PRE_REJECT else "")):
@@ -396,6 +455,14 @@ def strat_pyramid(draw, tier):
             cand = sorted(ref.reached)
             ap = list(cand[draw(st.integers(0, len(cand) - 1))])
         case["apex"] = ap
+    if kind == "filtered" and 1 <= depth <= 4 and draw(st.integers(0, 2)) == 0:
+        # the filter decides by the tile's sky position (longitude of the centre of its corners inside an interval)
+        import math
+
+        case["geo"] = [draw(st.floats(0, 2 * math.pi)), draw(st.floats(0.2, 4.5))]
+        case["filter"] = None
+        if draw(st.integers(0, 2)) > 0:
+            case["apex"] = draw(gens.positions(depth, 1))
     if draw(st.integers(0, 7)) == 0:
         n = depth + draw(st.integers(1, 3))
         case["rejected_apex"] = [n, draw(st.integers(0, 2**n - 1)), draw(st.integers(0, 2**n - 1))]
@@ -408,6 +475,13 @@ def exec_history(case):
     for k, spec in enumerate(case["pyramids"]):
         kind, depth, fspec, apex = spec["kind"], spec["depth"], spec.get("filter"), spec.get("apex")
         cs = spec.get("coordsys", "astronomical")
+        global _GEO
+        if spec.get("geo"):
+            fspec, margin = geo_filter_as_positions(spec["geo"], depth, cs)
+            if margin < 1e-9:
+                continue
+            _GEO = tuple(spec["geo"])
+            cls.add("sky-position-filter")
         with toasty_call("pyramid", f"pyramid #{k + 1} of the history"):
             try:
                 ref, vis, walked = compare_pyramid(kind, depth, fspec, apex, cs, routes=bool(spec.get("routes")))
@@ -415,6 +489,8 @@ def exec_history(case):
                     sub_vs_full(kind, depth, fspec, apex, cs, vis, walked)
             except Violation as v:
                 raise Violation(v.clause, f"pyramid #{k + 1} of {len(case['pyramids'])} used in one process: {v.msg}")
+            finally:
+                _GEO = None
         key = (depth, tuple(apex) if apex is not None else None)
         sig = (kind, canonical_filter(fspec), cs)
         if key in seen and seen[key] != sig:
